@@ -16,6 +16,6 @@ WCase(p) == [p |-> DotJoin(p), w |-> IF HasStar(p) THEN "1" ELSE "0", core |-> O
 Emit == PrintT(ToJson([f |-> "legacy", m |-> m, ks |-> SetToSeq({PCase(k) : k \in SearchKeys}), ps |-> SetToSeq({WCase(p) : p \in Paths}),
                        bound |-> SetToSeq(DOMAIN Bindings), oos |-> SetToSeq(OutOfScope)]))
 Spec == GenSpec
-cScalars == {VS("x"), VS("y")}
+cScalars == {VS("x"), VS("<&")}
 cConts == {EmptyMap, EmptyList}
 =============================================================================
